@@ -158,13 +158,32 @@ def structural_rules(ctx: Ctx):
             continue
         g = gens[0]
         comp0 = g.generators[0]
-        if not isinstance(comp0.target, ast.Name) or not comp0.ifs:
+        if not isinstance(comp0.target, ast.Name):
             continue
-        cond = comp0.ifs[0] if len(comp0.ifs) == 1 else ast.BoolOp(op=ast.And(), values=list(comp0.ifs))
+        ifs = list(comp0.ifs)
+        src = comp0.iter
+        # a selection that ranges over a local sub-list `[x for x in self.extractors if c]` is a selection over self.extractors under c
+        if isinstance(src, ast.Name):
+            ds = [x for x in stmts_local(pi.body) if isinstance(x, ast.Assign) and any(norm(t) == src.id for t in x.targets)]
+            if len(ds) == 1 and isinstance(ds[0].value, ast.ListComp) and len(ds[0].value.generators) == 1 and isinstance(ds[0].value.generators[0].target, ast.Name) \
+                    and norm(ds[0].value.elt) == ds[0].value.generators[0].target.id and ds[0].lineno < s.lineno:
+                g2 = ds[0].value.generators[0]
+
+                class _Ren(ast.NodeTransformer):
+                    def visit_Name(self, node):
+                        return ast.copy_location(ast.Name(id=comp0.target.id, ctx=node.ctx), node) if node.id == g2.target.id else node
+
+                import copy as _copy
+
+                ifs = [_Ren().visit(_copy.deepcopy(c)) for c in g2.ifs] + ifs
+                src = g2.iter
+        if not ifs:
+            continue
+        cond = ifs[0] if len(ifs) == 1 else ast.BoolOp(op=ast.And(), values=ifs)
         key = None
         if isinstance(g.elt, ast.Tuple) and len(g.elt.elts) == 2:
             key = g.elt.elts[0]
-        sels.append({"attr": attr, "src": comp0.iter, "var": comp0.target.id, "cond": cond, "key": key, "node": s, "gen": g})
+        sels.append({"attr": attr, "src": src, "var": comp0.target.id, "cond": cond, "key": key, "node": s, "gen": g})
     # auxiliary lists (not a filter, not the seed of get_extractors) are not part of the partition
     seed_attrs = {n.attr for s_ in stmts_local(ge.body) if isinstance(s_, ast.Assign) for n in ast.walk(s_.value)
                   if isinstance(n, ast.Attribute) and norm(n.value) == "self"}
@@ -263,10 +282,15 @@ def structural_rules(ctx: Ctx):
         # attributes holding every case-insensitive extractor with strings
         full_attrs = set()
         for s_ in stmts_local(pi.body):
-            if isinstance(s_, ast.Assign) and isinstance(s_.targets[0], ast.Attribute) and norm(s_.targets[0].value) == "self" \
-                    and isinstance(s_.value, (ast.ListComp, ast.SetComp)) and len(s_.value.generators) == 1:
-                g0 = s_.value.generators[0]
-                if norm(g0.iter) == "self.extractors" and isinstance(g0.target, ast.Name) and norm(s_.value.elt) == g0.target.id:
+            if not (isinstance(s_, ast.Assign) and isinstance(s_.targets[0], ast.Attribute) and norm(s_.targets[0].value) == "self"):
+                continue
+            val = s_.value
+            if isinstance(val, ast.Name):  # a local holding the comprehension
+                ds_ = [x for x in stmts_local(pi.body) if isinstance(x, ast.Assign) and any(norm(t) == val.id for t in x.targets)]
+                val = ds_[0].value if len(ds_) == 1 else val
+            if isinstance(val, (ast.ListComp, ast.SetComp)) and len(val.generators) == 1:
+                g0 = val.generators[0]
+                if norm(g0.iter) == "self.extractors" and isinstance(g0.target, ast.Name) and norm(val.elt) == g0.target.id:
                     cond = g0.ifs[0] if len(g0.ifs) == 1 else (ast.BoolOp(op=ast.And(), values=list(g0.ifs)) if g0.ifs else None)
                     if cond is None or _truth(cond, {"strings": True, "icase": True}, g0.target.id):
                         full_attrs.add(s_.targets[0].attr)
